@@ -861,6 +861,12 @@ func (p *Printer) paramExp(pe *ParamExp) {
 }
 
 func (p *Printer) cmdSubst(cs *CmdSubst) {
+	// The bodies of any heredocs pending in the enclosing statement come after
+	// the line which ends the command substitution, not after its first line;
+	// the parser does not read them inside of it either.
+	hdocs := p.pendingHdocs
+	p.pendingHdocs = nil
+	defer func() { p.pendingHdocs = append(p.pendingHdocs, hdocs...) }()
 	switch {
 	case cs.TempFile:
 		p.w.WriteString("${")
@@ -886,14 +892,8 @@ func (p *Printer) cmdSubst(cs *CmdSubst) {
 		} else {
 			p.wantSpace = spaceNotRequired
 		}
-		// The bodies of any heredocs pending in the enclosing statement come after
-		// the line which ends the command substitution, not after its first line;
-		// the parser does not read them inside of it either.
-		hdocs := p.pendingHdocs
-		p.pendingHdocs = nil
 		p.nestedStmts(cs.Stmts, cs.Last, cs.Right)
 		p.closingParen(cs.Stmts, cs.Last, cs.Left, cs.Right)
-		p.pendingHdocs = append(p.pendingHdocs, hdocs...)
 	}
 }
 
